@@ -10,6 +10,7 @@ import Drv.Use
 import Drv.Sched
 import Drv.DSet
 import Drv.Student
+import Drv.Chi2
 open Lean
 
 def dispatch (model : String) (j : Json) : Except String Json :=
@@ -19,6 +20,7 @@ def dispatch (model : String) (j : Json) : Except String Json :=
   | "slice" => Drv.Slice.run j
   | "dset" => Drv.DSet.run j
   | "student" => Drv.Student.run j
+  | "chi2" => Drv.Chi2.run j
   | "bonf" => Drv.Bonf.run j
   | "depgraph" => Drv.DepGraph.run j
   | "envp" => Drv.EnvP.run j
